@@ -4,7 +4,7 @@ PROP = {
     "level": "proof",
     "harness_cmd": "c05",
     "run_file": "Run/C05Run.v",
-    "obligation_files": ["Props/C05.v", "Conc/CrashProofs.v", "Conc/NoPanicProofs.v"],
+    "obligation_files": ["Props/C05.v", "Conc/CrashProofs.v", "Conc/NoPanicProofs.v", "Conc/TryProofs.v"],
     "harness_timeout": 3000,
     "trusted_base": [KERNEL, HARNESS, NOAX,
                      "modelled, not verified: coq/Conc/Crash.v (which goroutine runs which closure, where the code recovers: record code_sites) is hand-written after funcGen/generator.go generateIntern, value/list.go Map/Accept/Merge, value/multiUse.go runConsumer, value/value.go TryCatch and iterator.MapAuto/initParallel/ToChan/CopyProducer; it is tied to the code by the fault enumeration only (every context x fault class in an isolated worker process)",
